@@ -101,6 +101,23 @@ def run(rep, drv):
 			rep.tol_cmp += 1
 			if a is None or abs(a - m) > 1e-9 * max(1, abs(m)):
 				rep.diff('r_q_cost_poisson', 'python %r model (sum definition) %r' % (a, m), dict(case, r=rr, Q=QQ), py=a, model=m, oracle=True, theorem=THEOREM)
+	# large mean lead-time demand (exp(-mu) is subnormal from about 708 and 0.0 from 746): the Poisson cost is still its defining sum
+	for lam_, L_, r_, Q_ in ((450, 2, 880, 40), (365, 2, 700, 57), (1300, 1, 1290, 30), (100, 6.5, 640, 25)):
+		mu_ = lam_ * L_; h_, p_, K_ = 1, 9, 2
+		ys_ = np.arange(0, int(poisson.ppf(1 - 1e-16, mu_)) + 10)
+		pm_ = poisson.pmf(ys_, mu_)
+		gdef = lambda y: float(np.sum(pm_ * (h_ * np.maximum(y - ys_, 0) + p_ * np.maximum(ys_ - y, 0))))
+		want_ = (K_ * lam_ + sum(gdef(y) for y in range(r_ + 1, r_ + Q_ + 1))) / Q_
+		case = {'h': h_, 'p': p_, 'K': K_, 'lambda': lam_, 'L': L_, 'r': r_, 'Q': Q_, 'corpus': 'large mean'}
+		rep.case('r_q_cost_poisson', case, nontrivial=True); rep.count('poisson:large-mean'); rep.tol_cmp += 1
+		try:
+			with warnings.catch_warnings():
+				warnings.simplefilter('ignore')
+				got_ = float(rq.r_q_cost_poisson(r_, Q_, h_, p_, K_, lam_, L_))
+			if abs(got_ - want_) > 1e-7 * max(1, abs(want_)):
+				rep.diff('r_q_cost_poisson', 'mean lead-time demand %s: r_q_cost_poisson(%d, %d) = %r, the defining sum gives %r' % (mu_, r_, Q_, got_, want_), case, py=got_, model=want_, oracle=True, theorem=THEOREM)
+		except Exception as e:
+			rep.diff('r_q_cost_poisson', 'raised %s' % err_enum(e), case, oracle=True, theorem=THEOREM)
 	# normal demand: integral definition, r(Q), approximations (SciPy side, labelled tests)
 	for k in range(150 if th else 25):
 		h = rng.choice([0.5, 1, 2]); p = rng.choice([5, 14, 40]); K = rng.choice([4, 20, 100]); lam = rng.choice([20, 100, 1300]); sd = lam * rng.choice([0.1, 0.2]) ; L = rng.choice([1 / 12, 0.5, 1, 2])
